@@ -61,8 +61,14 @@ impl Block for Midpointer {
             warn!("Midpointer got NaN");
         } else {
             let (mut a, mut b): (Vec<Float>, Vec<Float>) = v.iter().partition(|&t| *t > mean);
-            a.sort_by(|a, b| a.partial_cmp(b).unwrap());
-            b.sort_by(|a, b| a.partial_cmp(b).unwrap());
+            if a.is_empty() || b.is_empty() {
+                // Constant (or single sample, or infinite) burst: there are no
+                // two levels to find the midpoint of.
+                warn!("Midpointer got a burst without two levels. Dropping");
+                return Ok(BlockRet::Again);
+            }
+            a.sort_by(|a, b| a.partial_cmp(b).unwrap_or(std::cmp::Ordering::Equal));
+            b.sort_by(|a, b| a.partial_cmp(b).unwrap_or(std::cmp::Ordering::Equal));
             let high = a[a.len() / 2];
             let low = b[b.len() / 2];
             let offset = low + (high - low) / 2.0;
@@ -216,8 +222,7 @@ fn find_best_bin(data: &[Complex]) -> Option<usize> {
         .iter()
         .take(data.len())
         .skip(skip)
-        .max_by(|a, b| a.partial_cmp(b).unwrap_or(std::cmp::Ordering::Equal))
-        .unwrap()
+        .max_by(|a, b| a.partial_cmp(b).unwrap_or(std::cmp::Ordering::Equal))?
         * 0.8;
 
     // Pick the first value that's above 80% of max and not still heading upwards.
